@@ -10,7 +10,8 @@
    are separate variables.     Decides C04, C07, C08 on the design.
    PinSecondRead re-enables the pinned multiset (two clock reads, fixed by babe27c),
    PinErrIndex the pinned error-index handling (fixed by ced6fc6),
-   PinGetNextEnd the pinned getnext at the end of the view (fixed by e9b1823). *)
+   PinGetNextEnd the pinned getnext at the end of the view (fixed by e9b1823),
+   PinErrBeforeId the pinned order "error-status first, request-id second" (fixed by bf9f023). *)
 EXTENDS AgentOps, TLC
 
 CONSTANTS Insts,        \* instance OIDs the agent may hold
@@ -18,10 +19,13 @@ CONSTANTS Insts,        \* instance OIDs the agent may hold
           MaxLen,       \* longest OID list
           Versions,     \* subset of {"v1","v2c","v3"}
           OpsSet, Perturbs, ErrStatuses, MaxTicks,
-          PinSecondRead, PinErrIndex, PinGetNextEnd
+          PinSecondRead, PinErrIndex, PinGetNextEnd,
+          PinErrBeforeId,   \* the lazily decoded PDU raised its error-status before validate_response_id ran   (fixed: F22)
+          IdErrStatuses     \* error-statuses a reply with a perturbed request-id may carry ({0}: none)
 
 Val(o) == <<"v", o>>
 SetVal(o) == <<"s", o>>            \* the typed value a caller supplies for o
+Confirmed(o) == <<"c", o>>         \* what an agent that normalises / clamps on write confirms instead
 
 \* ---------------------------------------------------------------- documented exception classes
 Exc(cls) == [kind |-> "exc", cls |-> cls, status |-> 0, oid |-> <<>>, data |-> <<>>]
@@ -65,6 +69,8 @@ vars == <<op, oids, nr, mr, db, ver, perturb, errSt, errIx, errEcho, clock, tick
 
 OidLists == UNION { [1..k -> ReqOids] : k \in 1..MaxLen }
 Single(o) == o \in {"get", "getnext", "set"}
+IdPerturbs == {"id_plus", "id_minus", "id_arb"}
+Scripted == perturb = "err" \/ (perturb \in IdPerturbs /\ errSt # 0)      \* the reply carries the scripted error-status
 NoDupSeq(s) == \A i, j \in DOMAIN s : i # j => s[i] # s[j]
 
 Init == /\ op \in OpsSet /\ ver \in Versions /\ db \in SUBSET Insts /\ perturb \in Perturbs
@@ -74,7 +80,8 @@ Init == /\ op \in OpsSet /\ ver \in Versions /\ db \in SUBSET Insts /\ perturb \
         /\ (op = "bulkget" => ver # "v1")
         /\ nr \in (IF op = "bulkget" THEN 0..Len(oids) ELSE {0}) /\ mr \in (IF op = "bulkget" THEN 0..2 ELSE {0})
         /\ (perturb = "oversize" => op = "bulkget")
-        /\ errSt \in (IF perturb = "err" THEN ErrStatuses ELSE {0})
+        /\ (perturb = "set_other" => op \in {"set", "multiset"})   \* the agent confirms other values than the ones supplied
+        /\ errSt \in (IF perturb = "err" THEN ErrStatuses ELSE IF perturb \in IdPerturbs THEN IdErrStatuses ELSE {0})
         /\ errIx \in (IF perturb = "err" THEN 0..(Len(oids) + 1) ELSE {0})
         /\ errEcho \in (IF perturb = "err" THEN BOOLEAN ELSE {TRUE})
         /\ clock = 10 /\ ticks = 0 /\ pc = "build" /\ sentId = 0 /\ checkedId = 0
@@ -101,12 +108,13 @@ AgentReply ==
          vbs == CASE perturb = "extra" -> Append(a.vbs, Extra)
                   [] perturb = "dropped" -> SubSeq(a.vbs, 1, Len(a.vbs) - 1)
                   [] perturb = "oversize" -> a.vbs \o [i \in 1..(n + mr * (Len(oids) - n) + 1 - Len(a.vbs)) |-> Extra]
-                  [] perturb = "err" -> IF errEcho THEN echo ELSE <<>>
+                  [] Scripted -> IF errEcho THEN echo ELSE <<>>
+                  [] perturb = "set_other" /\ a.es = 0 -> [i \in DOMAIN a.vbs |-> <<a.vbs[i][1], Confirmed(a.vbs[i][1])>>]
                   [] OTHER -> a.vbs
      IN resp' = [id |-> CASE perturb = "id_plus" -> sentId + 1 [] perturb = "id_minus" -> sentId - 1
                           [] perturb = "id_arb" -> 7 [] OTHER -> sentId,
-                 es |-> IF perturb = "err" THEN errSt ELSE a.es,
-                 ei |-> IF perturb = "err" THEN errIx ELSE a.ei,
+                 es |-> IF Scripted THEN errSt ELSE a.es,
+                 ei |-> IF Scripted THEN errIx ELSE a.ei,
                  vbs |-> vbs, comm |-> perturb # "wrong_comm", ver |-> perturb # "wrong_ver"]
   /\ UNCHANGED <<op, oids, nr, mr, db, ver, perturb, errSt, errIx, errEcho, clock, ticks, sentId, checkedId, outcome>>
 
@@ -117,8 +125,9 @@ Decode ==
   /\ outcome' =
        IF ver # "v3" /\ ~resp.ver THEN Exc("SnmpError")
        ELSE IF ver # "v3" /\ ~resp.comm THEN Exc("SnmpError")
+       ELSE IF PinErrBeforeId /\ resp.es # 0 THEN (IF IndexFails(resp) THEN Exc("IndexError") ELSE ErrExc(resp.es, Offending(resp)))
+       ELSE IF resp.id # checkedId THEN Exc("InvalidResponseId")        \* Client._send: also for the id an ErrorResponse carries
        ELSE IF resp.es # 0 THEN (IF IndexFails(resp) THEN Exc("IndexError") ELSE ErrExc(resp.es, Offending(resp)))
-       ELSE IF resp.id # checkedId THEN Exc("InvalidResponseId")
        ELSE Project(op, oids, nr, mr, resp.vbs)
   /\ UNCHANGED <<op, oids, nr, mr, db, ver, perturb, errSt, errIx, errEcho, clock, ticks, sentId, checkedId, resp>>
 
@@ -131,11 +140,14 @@ Finished == pc = "done"
 \* C07
 Soundness    == outcome.kind = "result" => resp.id = sentId
 Completeness == (Finished /\ perturb = "none") => outcome.cls # "InvalidResponseId"
-Rejects      == (Finished /\ perturb \in {"id_plus", "id_minus", "id_arb"} /\ resp.es = 0) => outcome.cls = "InvalidResponseId"
+Rejects      == (Finished /\ perturb \in IdPerturbs) => outcome.cls = "InvalidResponseId"
+\* walks (Client.multiwalk) take NoSuchOID raised by one of their exchanges for the end of the subtree and return normally:
+\* that exception must only ever come from the response to the request actually sent
+WalkEndSound == (Finished /\ op \in {"multigetnext", "bulkget"} /\ outcome.kind = "exc" /\ outcome.cls = ErrClass(2)) => resp.id = sentId
 CommunityVersionRefused == (Finished /\ ver # "v3" /\ perturb \in {"wrong_comm", "wrong_ver"}) => (outcome.kind = "exc" /\ outcome.cls = "SnmpError")
 \* C08
 ErrorSurfaces ==
-  (Finished /\ resp.es # 0 /\ perturb \notin {"wrong_comm", "wrong_ver"}) =>
+  (Finished /\ resp.es # 0 /\ perturb \notin {"wrong_comm", "wrong_ver"} \cup IdPerturbs) =>
      /\ outcome.kind = "exc" /\ outcome.cls = ErrClass(resp.es) /\ outcome.status = resp.es
      /\ (resp.ei \in DOMAIN resp.vbs => outcome.oid = resp.vbs[resp.ei][1])
 \* C04 (property-level expectation, written without the client's helper operators)
@@ -157,6 +169,10 @@ Expected ==
 ExactAnswers == (Finished /\ perturb = "none" /\ op # "bulkget") => outcome = Expected
 CountMismatchRefused ==
   (Finished /\ perturb \in {"extra", "dropped"} /\ op # "bulkget" /\ resp.es = 0) => (outcome.kind = "exc" /\ outcome.cls = "SnmpError")
+\* a set returns what the agent confirmed - not what the caller supplied
+SetReturnsConfirmed ==
+  (Finished /\ perturb = "set_other" /\ resp.es = 0) =>
+     outcome = IF op = "set" THEN Result(Confirmed(oids[1])) ELSE Result([i \in DOMAIN oids |-> <<oids[i], Confirmed(oids[i])>>])
 OversizeRefused == (Finished /\ perturb = "oversize") => (outcome.kind = "exc" /\ outcome.cls = "SnmpError")
 \* bulkget: nothing invented, reordered or moved between scalars and listing.  scalars / listing are
 \* documented as mappings keyed by OID, so bindings with the same OID collapse into one entry (weaker
